@@ -249,11 +249,11 @@ def lcd_of_text(pipe, text, flagdeps):
     return out, (max([v["latency"] for v in lcd.values()]) if lcd else 0)
 
 
-def rotation_oracle(ctx, pipe, text, flagdeps, isa, origin, max_rot=None):
+def rotation_oracle(ctx, pipe, text, flagdeps, isa, origin, max_rot=None, rots=None):
     """C14: every rotation of the loop body reports the same set of cycles (as instruction texts) and the same maximum."""
     lines = [l for l in text.split("\n") if l.strip()]
     base, bmax = lcd_of_text(pipe, "\n".join(lines) + "\n", flagdeps)
-    rots = list(range(1, len(lines)))
+    rots = list(range(1, len(lines))) if rots is None else [r % len(lines) for r in rots if r % len(lines)]
     if max_rot and len(rots) > max_rot:
         rots = ctx.rng.sample(rots, max_rot)
     n = 0
